@@ -144,6 +144,8 @@ fn net_strategy() -> BoxedStrategy<Net> {
         5 => (0u8..8).prop_map(Net::Filler),
         1 => Just(Net::V6Only),
         1 => Just(Net::NoAddr),
+        2 => (0u8..3).prop_map(Net::V6MappedHot),
+        2 => Just(Net::V6Loopback),
     ]
     .boxed()
 }
@@ -179,6 +181,39 @@ fn op_strategy() -> BoxedStrategy<Op> {
         6 => (0u8..NBOFF).prop_map(|boff| Op::ExpirePending { boff }),
     ]
     .boxed()
+}
+
+/// By construction: a hot subnet is brought to the table limit in the other buckets (2 per
+/// bucket), one bucket is filled (front disconnected) and gets a waiting (pending) node with a
+/// filler record; then the record of the WAITING node is updated into the hot subnet, its time-out
+/// elapses and the table is touched.
+fn pending_move_scenario() -> BoxedStrategy<Vec<Op>> {
+    (0u8..NBOFF, 0u8..3, 0u8..8, any::<bool>(), proptest::option::of(any::<bool>()), prop_oneof![3 => Just(10u8), 1 => 7u8..10])
+        .prop_map(|(b, hot, first_filler, via_insert, state, others)| {
+            let small = |i: u16| i.wrapping_mul(4099).wrapping_add(17);
+            let mut v = Vec::new();
+            let mut placed = 0u8;
+            for boff in (0..NBOFF).filter(|x| *x != b) {
+                for i in 0..2u16 {
+                    if placed < others {
+                        v.push(Op::Insert { k: KSel { boff, idx: small(i) }, net: Net::Hot(hot), seq: 1, connected: true, incoming: false });
+                        placed += 1;
+                    }
+                }
+            }
+            v.push(Op::BulkFill { boff: b, n: 16, conn: 0xFFFE, first_filler });
+            let waiting = KSel { boff: b, idx: small(20) };
+            v.push(Op::Insert { k: waiting, net: Net::Filler((first_filler + 3) % 8), seq: 1, connected: true, incoming: false });
+            if via_insert {
+                v.push(Op::Insert { k: waiting, net: Net::Hot(hot), seq: 2, connected: true, incoming: false });
+            } else {
+                v.push(Op::UpdateNode { k: waiting, net: Net::Hot(hot), seq: 2, state });
+            }
+            v.push(Op::ExpirePending { boff: b });
+            v.push(Op::Iter);
+            v
+        })
+        .boxed()
 }
 
 pub struct C16;
@@ -346,15 +381,21 @@ impl Property for C16 {
     }
     fn strategy(tier: Tier) -> BoxedStrategy<Case> {
         let n = tier.pick(150usize, 250usize);
-        (any::<bool>(), prop_oneof![4 => Just(16u8), 1 => 0u8..=16], proptest::collection::vec(op_strategy(), 1..n))
-            .prop_map(|(pending_zero, max_incoming, ops)| Case { pending_zero, max_incoming, ops })
-            .boxed()
+        let frag = prop_oneof![60 => op_strategy().prop_map(|o| vec![o]), 1 => pending_move_scenario()];
+        let mixed = (any::<bool>(), prop_oneof![4 => Just(16u8), 1 => 0u8..=16], proptest::collection::vec(frag, 1..n))
+            .prop_map(|(pending_zero, max_incoming, frags)| Case { pending_zero, max_incoming, ops: frags.into_iter().flatten().collect() });
+        // the scenario on an empty table, followed by a short random tail
+        let focused = (any::<bool>(), pending_move_scenario(), proptest::collection::vec(op_strategy(), 0..12)).prop_map(|(pending_zero, mut ops, tail)| {
+            ops.extend(tail);
+            Case { pending_zero, max_incoming: 16, ops }
+        });
+        prop_oneof![8 => mixed, 1 => focused].boxed()
     }
     fn run(case: &Case) -> CaseReport {
         run_case(case)
     }
     fn rule() -> String {
-        "histories (<=150 quick / <=250 thorough ops; bulk fills expanded) of the filter-respecting table API (insert_or_update, update_node, update_node_status, remove, iter, entry lookup, closest_keys, nodes_by_distances, forced pending expiry) on KBucketsTable<NodeId, Enr> built with the crate's own IpTableFilter/IpBucketFilter; keys are real key hashes from a deterministic pool of 2048 keys in buckets 250..255; records are signed and drawn from 3 hot /24 subnets, 8 filler subnets, IPv6-only and address-less shapes, with seq 1..3 so that updates move nodes between subnets. After every elementary op: per /24 <=2 stored nodes per bucket and <=10 in the table; a record without IPv4 is never refused by a filter. Non-trivial = some subnet reached 9 table entries or 2 entries in a full bucket and a later op carried a record with an IPv4 address.".into()
+        "histories (<=150 quick / <=250 thorough ops; bulk fills expanded) of the filter-respecting table API (insert_or_update, update_node, update_node_status, remove, iter, entry lookup, closest_keys, nodes_by_distances, forced pending expiry) on KBucketsTable<NodeId, Enr> built with the crate's own IpTableFilter/IpBucketFilter; keys are real key hashes from a deterministic pool of 2048 keys in buckets 250..255; records are signed and drawn from 3 hot /24 subnets, 8 filler subnets, IPv6-only (ordinary, IPv4-mapped into a hot subnet, ::1) and address-less shapes, with seq 1..3 so that updates move nodes between subnets. After every elementary op: per /24 <=2 stored nodes per bucket and <=10 in the table; a record without IPv4 is never refused by a filter. Non-trivial = some subnet reached 9 table entries or 2 entries in a full bucket and a later op carried a record with an IPv4 address.".into()
     }
     fn assumptions() -> Vec<String> {
         vec![
